@@ -27,6 +27,10 @@ int    __real_getrlimit(int, struct rlimit *);
 char  *__real_getenv(const char *);
 }
 
+#include <execinfo.h>
+extern "C" void __sanitizer_print_stack_trace(void);
+extern "C" void __sanitizer_symbolize_pc(void *pc, const char *fmt, char *out_buf, size_t out_buf_size);
+
 namespace simfs {
 
 static const char *kEvNames[] = {"open", "close", "read", "write", "seek", "tell",
@@ -117,13 +121,14 @@ static std::vector<WriteRec>               g_wlog;
 static std::vector<Fault>                  g_faults;
 static std::vector<std::string>            g_mut, g_misuse;
 static std::map<std::string, std::string>  g_env;
+static bool     g_trace = false;
+static std::string g_fault_site;
 static bool     g_keep_events = true, g_keep_wlog = false, g_buffered = false, g_enospc = false;
 static int      g_bufsize = 4096, g_op = -1, g_ord = 0, g_nstreams = 0;
 static uint32_t g_seq   = 0;
 static uint64_t g_evhash = 1469598103934665603ULL;
 static uint64_t g_kindc[EV_NKINDS], g_faultc[F_NKINDS];
 static long     g_nofile = 1024;
-static bool     g_trace  = false;
 
 static bool is_sim(const char *p) { return p && strncmp(p, "/sim/", 5) == 0; }
 static int  file_id(const std::string &p)
@@ -200,6 +205,63 @@ std::vector<uint8_t> file_bytes(const Disk &d, const std::string &path, int64_t 
     it->second->read(0, v.data(), n);
     return v;
 }
+std::string wlog_serialize(const std::vector<WriteRec> &w)
+{
+    std::string s;
+    auto        put64 = [&](int64_t v) { s.append((const char *)&v, 8); };
+    auto        puts  = [&](const std::string &x) {
+        put64((int64_t)x.size());
+        s += x;
+    };
+    put64((int64_t)w.size());
+    for (auto &r : w) {
+        put64(r.kind);
+        puts(r.path);
+        puts(r.path2);
+        put64(r.off);
+        put64(r.op);
+        put64(r.evseq);
+        put64((int64_t)r.data.size());
+        s.append((const char *)r.data.data(), r.data.size());
+    }
+    return s;
+}
+std::vector<WriteRec> wlog_deserialize(const std::string &s)
+{
+    std::vector<WriteRec> w;
+    size_t                p     = 0;
+    auto                  get64 = [&]() {
+        int64_t v = 0;
+        if (p + 8 <= s.size())
+            memcpy(&v, s.data() + p, 8);
+        p += 8;
+        return v;
+    };
+    auto gets = [&]() {
+        int64_t     n = get64();
+        std::string x;
+        if (n >= 0 && p + (size_t)n <= s.size())
+            x.assign(s.data() + p, (size_t)n);
+        p += (size_t)n;
+        return x;
+    };
+    int64_t n = get64();
+    for (int64_t i = 0; i < n && p < s.size(); i++) {
+        WriteRec r;
+        r.kind  = (int)get64();
+        r.path  = gets();
+        r.path2 = gets();
+        r.off   = get64();
+        r.op    = (int)get64();
+        r.evseq = (uint32_t)get64();
+        int64_t dn = get64();
+        if (dn >= 0 && p + (size_t)dn <= s.size())
+            r.data.assign((const uint8_t *)s.data() + p, (const uint8_t *)s.data() + p + dn);
+        p += (size_t)dn;
+        w.push_back(std::move(r));
+    }
+    return w;
+}
 std::string disk_serialize(const Disk &d)
 {
     std::string s;
@@ -263,6 +325,7 @@ void reset_all()
     g_misuse.clear();
     g_env.clear();
     g_enospc = false;
+    g_fault_site.clear();
     g_op     = -1;
     g_ord    = 0;
     g_seq    = 0;
@@ -310,6 +373,7 @@ void            set_env(const std::string &n, const std::string &v) { g_env[n] =
 void            set_nofile_limit(long n) { g_nofile = n; }
 const uint64_t *kind_counts() { return g_kindc; }
 const uint64_t *fault_counts() { return g_faultc; }
+const std::string &fault_site() { return g_fault_site; }
 
 // ------------------------------------------------------------------ events and faults
 struct Ev {
@@ -386,6 +450,38 @@ static int take_fault(Ev &ev, Stream *s)
     if (ev.fault && fault_applies(ev.fault->kind, ev.e.kind)) {
         fk               = ev.fault->kind;
         ev.fault->fired = true;
+        if (g_fault_site.empty()) {
+            // library call chain at the fault, innermost first, without the generic element I/O layer
+            static const char *generic[] = {"HP_write", "HP_read", "HPseek", "Hwrite", "Hread", "Hseek", "Hputelement",
+                                            "Hgetelement", "Hstartaccess", "Hstartread", "Hstartwrite", "Hendaccess",
+                                            "Hlength", "hi_close_stdio", "Hinquire", "HTPinquire", nullptr};
+            void *pcs[40];
+            int   n = backtrace(pcs, 40), kept = 0;
+            for (int i = 0; i < n && kept < 3; i++) {
+                char buf[256] = "";
+                __sanitizer_symbolize_pc((char *)pcs[i] - 1, "%f", buf, sizeof buf);
+                std::string fn(buf);
+                if (fn.empty() || fn.find("simfs") != std::string::npos || fn.find("__wrap_") != std::string::npos ||
+                    fn.find("__interceptor") != std::string::npos || fn.find("backtrace") != std::string::npos ||
+                    fn.find("take_fault") != std::string::npos || fn == "writeout" || fn == "disk_write" || fn == "begin_event")
+                    continue;
+                if (fn.find("h4::") != std::string::npos || fn == "execute" || fn == "main" || fn.find("judge") != std::string::npos)
+                    break; // reached the harness
+                bool gen = false;
+                for (int g = 0; generic[g]; g++)
+                    gen |= fn == generic[g];
+                if (gen)
+                    continue;
+                g_fault_site += (kept ? "<" : "") + fn;
+                kept++;
+            }
+            if (g_fault_site.empty())
+                g_fault_site = "?";
+        }
+        if (g_trace) {
+            fprintf(stderr, "  >>> fault %s fires on %s event (op %d.%d); stack:\n", fault_name(fk), evkind_name(ev.e.kind), ev.e.op, ev.e.ord);
+            __sanitizer_print_stack_trace();
+        }
         g_faultc[fk]++;
         if (fk == F_ENOSPC)
             g_enospc = true;
@@ -723,6 +819,17 @@ int __wrap_fflush(FILE *fp)
     }
     end_event(ev, ok ? 0 : -1);
     return ok ? 0 : EOF;
+}
+
+int __real_ferror(FILE *);
+int __wrap_ferror(FILE *fp)
+{
+    Stream *s = lookup(fp, "ferror");
+    if (!s)
+        return __real_ferror(fp);
+    if (s == DEADSTREAM)
+        return 1;
+    return s->err ? 1 : 0;
 }
 
 int __wrap_stat(const char *path, struct stat *st)
